@@ -96,7 +96,10 @@ $(B)/$(1)/bin/econt $(B)/$(1)/bin/etl $(B)/$(1)/bin/erng: $(B)/$(1)/bin/%: $(B)/
 $(B)/$(1)/bin/efs: $(B)/$(1)/engines/efs.o $$(DETSIM_OBJ_$(1)) $(B)/$(1)/detsim/fsim.o
 	@mkdir -p $$(dir $$@)
 	$(CXX) $$(LDFLAGS_$(1)) -rdynamic -o $$@ $$^ -ldl -lpthread
-# whole-simulation engines
+# whole-simulation engines; E-RHD also carries the simulated file layer (C14)
+$(B)/$(1)/bin/erhd: $(B)/$(1)/engines/erhd.o $$(DETSIM_OBJ_$(1)) $(B)/$(1)/detsim/fsim.o $(B)/$(1)/libengine.a
+	@mkdir -p $$(dir $$@)
+	$(CXX) $$(LDFLAGS_$(1)) -rdynamic -o $$@ $$(filter %.o,$$^) $(B)/$(1)/libengine.a $(HDF5_LIB) -ldl -lpthread
 $(B)/$(1)/bin/%: $(B)/$(1)/engines/%.o $$(DETSIM_OBJ_$(1)) $(B)/$(1)/libengine.a
 	@mkdir -p $$(dir $$@)
 	$(CXX) $$(LDFLAGS_$(1)) -o $$@ $$(filter %.o,$$^) $(B)/$(1)/libengine.a $(HDF5_LIB) -lpthread
